@@ -19,7 +19,7 @@ ASSUMPTIONS = ['the oracle is the real `ska map -f aln` output of the same run; 
                'contig names are c<i> or taken from a pool of realistic names (chr10, NC_000913.3, contig-5|x, ...), in non-sorted order']
 REQUIRED = {t: ['records_checked', 'multiallelic_records', 'records_on_later_contigs', 'ref_N_records',
                 'lowercase_ref_cases', 'missing_genotypes', 'N_genotypes', 'references_with_ambiguity_codes',
-                'vcf_written_over_existing_longer_file', 'vcf_threads_not_dividing_reference_length', 'records_in_last_columns_of_reference', 'references_over_262144_bases', 'unusual_contig_names'] for t in ('quick', 'thorough')}
+                'vcf_written_over_existing_longer_file', 'vcf_threads_not_dividing_reference_length', 'records_in_last_columns_of_reference', 'references_over_262144_bases', 'unusual_contig_names', 'duplicate_contig_names', 'records_where_255..257_samples_differ'] for t in ('quick', 'thorough')}
 
 
 def builds(tier):
@@ -29,6 +29,7 @@ def builds(tier):
 def plan(tier, seed, rng, scale):
     descs = c04.plan(tier, seed + 5000, rng, scale * 0.8)
     for i, d in enumerate(descs):
+        d['unique_sample_names'] = True      # a VCF cannot carry two samples of one name (DESIGN.md section 8)
         if i % 12 == 5 and d['kind'] in ('random', 'pattern', 'lower'):
             d['iupac_ref'] = True        # reference bases that are neither A/C/G/T nor N: REF must read N
     return descs
@@ -111,7 +112,9 @@ def run_case(desc, ctx):
         bad = []
         if vnames != gn:
             bad.append('sample names %s vs alignment %s' % (vnames, gn))
-        if contigs != st['contig_names']:
+        uniq = list(dict.fromkeys(st['contig_names']))
+        if contigs != uniq:
+            # a VCF header cannot list one ID twice: the names of the input in order of first appearance
             bad.append('contig header %s' % contigs)
         total = sum(len(c) for c in ref)
         if any(len(x) != total for x in gs):
@@ -121,78 +124,78 @@ def run_case(desc, ctx):
                         'VCF has %d records under contigs %s' % (k, rcmode, fl or 'none', desc['kind'], variant, sorted(set(map(len, gs))), total, len(recs), contigs),
                         {'ref': ref, 'samples': st['samples'], 'alignment': gs, 'vcf': v.stdout[-2000:]})
             continue
-        by_key = {}
-        order = []
-        for r in recs:
-            key = (r['chrom'], r['pos'])
-            if key in by_key:
-                bad.append('duplicate record %s' % (key,))
-            by_key[key] = r
-            order.append(key)
-        exp_keys = []
+        # expected records in reference order (contig names may repeat: matching is by position in the sequence of records)
+        exp_list = []
         off = 0
-        nrec = 0
         for ci, c in enumerate(ref):
             cu = c.upper()
             for p_ in range(len(c)):
                 col = [s[off + p_] for s in gs]
                 rb = cu[p_]
-                key = (st['contig_names'][ci], p_ + 1)
                 if any(ch != rb for ch in col):
-                    exp_keys.append(key)
-                    r = by_key.get(key)
-                    if r is None:
-                        bad.append('missing record %s column=%s ref=%s' % (key, ''.join(col), rb))
-                        continue
-                    nrec += 1
-                    want_ref = rb if rb in 'ACGT' else 'N'
-                    if r['ref'] != want_ref:
-                        bad.append('REF %s at %s, reference base %s' % (r['ref'], key, rb))
-                    if r['fmt'] != 'GT':
-                        bad.append('FORMAT %s' % r['fmt'])
-                    alleles = [r['ref']] + r['alt']
-                    if len(set(r['alt'])) != len(r['alt']):
-                        bad.append('duplicate ALT at %s' % (key,))
-                    if len(r['gt']) != len(col):
-                        bad.append('%d genotypes for %d samples at %s' % (len(r['gt']), len(col), key))
-                        continue
-                    for ch, g in zip(col, r['gt']):
-                        want = ch if ch in 'ACGT-' else 'N'
-                        if g == '.':
-                            dec = '-'
-                            res.count('missing_genotypes')
-                        else:
-                            try:
-                                dec = alleles[int(g)]
-                            except (ValueError, IndexError):
-                                dec = '?'
-                        if g == '0':
-                            # genotype 0 means "equal to the reference base" (which itself may be a non-ACGT character)
-                            dec = rb
-                            want = ch
-                        elif ch == rb:
-                            bad.append('genotype %s at %s for a sample equal to the reference base' % (g, key))
-                        if dec == 'N' and g != '0':
-                            res.count('N_genotypes')
-                        if dec != want:
-                            bad.append('genotype %s at %s decodes to %s, alignment has %s (REF %s ALT %s)'
-                                       % (g, key, dec, ch, r['ref'], r['alt']))
-                    used = {int(g) for g in r['gt'] if g not in ('.',) and g.isdigit()}
-                    if any(i + 1 not in used for i in range(len(r['alt']))):
-                        bad.append('unused ALT allele at %s' % (key,))
-                    if len(r['alt']) >= 2:
-                        res.count('multiallelic_records')
-                    if ci > 0:
-                        res.count('records_on_later_contigs')
-                    if want_ref == 'N':
-                        res.count('ref_N_records')
-                    if off + p_ >= total - 7:
-                        res.count('records_in_last_columns_of_reference')
-                elif key in by_key:
-                    bad.append('spurious record %s %s column=%s ref=%s' % (key, by_key[key], ''.join(col), rb))
+                    exp_list.append(((st['contig_names'][ci], p_ + 1), col, rb, ci, off + p_))
             off += len(c)
-        if order != exp_keys and not bad:
-            bad.append('records not in reference order or keys differ')
+        exp_keys = [e[0] for e in exp_list]
+        order = [(r['chrom'], r['pos']) for r in recs]
+        nrec = 0
+        if order != exp_keys:
+            i_ = 0
+            while i_ < min(len(order), len(exp_keys)) and order[i_] == exp_keys[i_]:
+                i_ += 1
+            if i_ < len(exp_keys) and (i_ >= len(order) or exp_keys[i_] not in order[i_:i_ + 3]):
+                e = exp_list[i_]
+                bad.append('missing record %s column=%s ref=%s (record %d of %d expected, %d written)' % (e[0], ''.join(e[1]), e[2], i_ + 1, len(exp_keys), len(order)))
+            else:
+                bad.append('spurious or misplaced record %s as record %d (%d expected, %d written)' % (order[i_], i_ + 1, len(exp_keys), len(order)))
+        else:
+            for (key, col, rb, ci, gpos), r in zip(exp_list, recs):
+                nrec += 1
+                want_ref = rb if rb in 'ACGT' else 'N'
+                if r['ref'] != want_ref:
+                    bad.append('REF %s at %s, reference base %s' % (r['ref'], key, rb))
+                if r['fmt'] != 'GT':
+                    bad.append('FORMAT %s' % r['fmt'])
+                alleles = [r['ref']] + r['alt']
+                if len(set(r['alt'])) != len(r['alt']):
+                    bad.append('duplicate ALT at %s' % (key,))
+                if len(r['gt']) != len(col):
+                    bad.append('%d genotypes for %d samples at %s' % (len(r['gt']), len(col), key))
+                    continue
+                for ch, g in zip(col, r['gt']):
+                    want = ch if ch in 'ACGT-' else 'N'
+                    if g == '.':
+                        dec = '-'
+                        res.count('missing_genotypes')
+                    else:
+                        try:
+                            dec = alleles[int(g)]
+                        except (ValueError, IndexError):
+                            dec = '?'
+                    if g == '0':
+                        # genotype 0 means "equal to the reference base" (which itself may be a non-ACGT character)
+                        dec = rb
+                        want = ch
+                    elif ch == rb:
+                        bad.append('genotype %s at %s for a sample equal to the reference base' % (g, key))
+                    if dec == 'N' and g != '0':
+                        res.count('N_genotypes')
+                    if dec != want:
+                        bad.append('genotype %s at %s decodes to %s, alignment has %s (REF %s ALT %s)'
+                                   % (g, key, dec, ch, r['ref'], r['alt']))
+                used = {int(g) for g in r['gt'] if g not in ('.',) and g.isdigit()}
+                if any(i + 1 not in used for i in range(len(r['alt']))):
+                    bad.append('unused ALT allele at %s' % (key,))
+                if len(r['alt']) >= 2:
+                    res.count('multiallelic_records')
+                if ci > 0:
+                    res.count('records_on_later_contigs')
+                if want_ref == 'N':
+                    res.count('ref_N_records')
+                if gpos >= total - 7:
+                    res.count('records_in_last_columns_of_reference')
+                nd = sum(1 for ch in col if ch != rb)
+                if nd in (255, 256, 257):
+                    res.count('records_where_255..257_samples_differ')
         # cross-check the alignment against the C04 model
         if desc.get('iupac_ref'):
             if variant == 'rel':
